@@ -94,6 +94,11 @@ def _type_of_node(n):
                   "None": NONE, "JV": JV, "Seconds": FLOAT, "fn": FN}
         if nm in simple:
             return simple[nm]
+        if nm not in TYPE_ALIASES:
+            # a class name used unqualified in a contract: resolve by the last component of a classdef
+            cands = [q for q in CLASSDEFS if q.split(".")[-1] == nm]
+            if len(cands) == 1:
+                TYPE_ALIASES[nm] = cands[0]
         return ObjT(TYPE_ALIASES.get(nm, nm))
     if isinstance(n, ast.Constant) and n.value is None:
         return NONE
@@ -485,17 +490,43 @@ class State:
                     cur = prev
         return False
 
+    def ref_before(self, ref, limit):
+        """Syntactic: ref < limit, where limit is an allocation point (epoch base + offset)."""
+        rb, rc = self._decomp(ref)
+        lb, lc = self._decomp(limit)
+        if rb.get_id() in self.ex.old_refs and rc == 0:
+            return True
+        if rb.eq(lb):
+            return 0 <= rc < lc
+        ep = self.ex.epochs
+        cur = lb.get_id()
+        seen = 0
+        while cur in ep and seen < 60:
+            prev, used = ep[cur]
+            if prev == rb.get_id():
+                return 0 <= rc < used
+            cur = prev
+            seen += 1
+        return False
+
     def read(self, key, sort, ref):
         arr = self.field(key, sort)
-        # walk the store chain while the written cell is provably a different reference
-        while z3.is_store(arr):
-            i = arr.arg(1)
-            if i.eq(ref):
-                return arr.arg(2)
-            if self.distinct_refs(i, ref):
-                arr = arr.arg(0)
-            else:
-                break
+        while True:
+            # walk the store chain while the written cell is provably a different reference
+            while z3.is_store(arr):
+                i = arr.arg(1)
+                if i.eq(ref):
+                    return arr.arg(2)
+                if self.distinct_refs(i, ref):
+                    arr = arr.arg(0)
+                else:
+                    break
+            # an array introduced by a frame "everything allocated before L is unchanged": read through it
+            info = self.ex.region_havoc.get(arr.get_id()) if z3.is_const(arr) else None
+            if info is not None and self.ref_before(ref, info[1]):
+                arr = info[0]
+                continue
+            break
         return z3.Select(arr, ref)
 
 
@@ -532,6 +563,7 @@ ASSUMPTIONS = {
     "A-STD": "sorted/list.sort return a stable ordered permutation; max/min/sum/zip/enumerate/reversed as documented",
     "A-COPY": "copy.deepcopy returns a structure-preserving deep-fresh copy; copy.copy/dict.copy are shallow",
     "A-DICT": "dict iteration order is insertion order",
+    "A-PARMAP": "a comprehension whose element call writes only its own element's data dict is encoded as a parallel map: the callee's postcondition is taken against the state before the comprehension (distinct dicts are an obligation; independence of the postcondition from other dicts is assumed)",
     "A-JV": "JSON-like values inside event data are opaque values with equality",
     "T-SOLVER": "z3 / cvc5 answer unsat only for unsatisfiable queries; the VC generator itself (guarded by cross-checks and planted-failure tests)",
 }
